@@ -65,10 +65,33 @@ def compare_files(res, L, chain, ins, outs, out):
     return parsed
 
 
+class _W:
+    """a record line with the path column exposed (what shrink_context needs)"""
+
+    def __init__(self, r):
+        self.line = r.line() if hasattr(r, "line") and callable(r.line) else r
+        self.path = self.line.split("\t")[5]
+
+
+def _L(recs):
+    return [_W(r) for r in recs]
+
+
+def chain_fails(scratch, gpath, lines, fmt1, fmt2):
+    """does the last record of the file fail to come back through the two chained conversions?"""
+    o1, a = conv.view_convert(scratch, "".join(l + "\n" for l in lines), gpath, fmt1, "sh1")
+    if o1.kind != "ok" or len(a) != len(lines):
+        return True
+    o2, b = conv.view_convert(scratch, "".join(l + "\n" for l in a), gpath, fmt2, "sh2")
+    if o2.kind != "ok" or len(b) != len(lines):
+        return True
+    return b[-1] != lines[-1]
+
+
 def run_layout(res, L, tier, scratch):
     g = L.graph("complete")
     gpath = os.path.join(scratch, "g.gfa")
-    fw.write_text(gpath, g.text())
+    fw.write_text(gpath, conv.gfa_text(g, L))
     maxlen = c01.maxlen_for(L, tier)
     pairs = list(conv.records_for(g, L, maxlen))
     recs = [r for r, st in pairs]
@@ -90,10 +113,14 @@ def run_layout(res, L, tier, scratch):
             if len(steps) >= 2 or steps[0][0] == "<":
                 res.nt(fw.h64(L.name + "usu" + rin.line()))
             if u2 != rin.line():
+                ctx = [rin.line()]
+                if res.would_keep("C02/u2s2u:roundtrip"):
+                    ctx = conv.shrink_context(_L(recs), recs.index(rin), lambda lst: chain_fails(scratch, gpath, [x.line for x in lst], "stable", "unstable"))
+                    ctx = [x.line for x in ctx]
                 res.fail(
                     "C02/u2s2u:roundtrip",
-                    f"[{L.name}] canonical record {rin.line()!r} -> {s1!r} -> {u2!r}",
-                    fail_case(L, "u2s2u", [rin.line()]),
+                    f"[{L.name}] canonical record {rin.line()!r} -> {s1!r} -> {u2!r}" + (f" (only after {len(ctx) - 1} earlier record(s) in the same file)" if len(ctx) > 1 else ""),
+                    fail_case(L, "u2s2u", ctx),
                 )
     res.count("canonical_records", ncanon)
     # step 3: u -> s again: every stable record gaftools emitted must come back exactly
@@ -105,7 +132,11 @@ def run_layout(res, L, tier, scratch):
         res.evaluations += 1
         res.nt(fw.h64(L.name + "sus" + s1))
         if s3 != s1:
-            res.fail("C02/s2u2s:roundtrip", f"[{L.name}] gaftools' own stable record {s1!r} -> {u2!r} -> {s3!r}", fail_case(L, "s2u2s", [s1]))
+            ctx = [s1]
+            if res.would_keep("C02/s2u2s:roundtrip"):
+                ctx = conv.shrink_context(_L(P1), S1.index(s1), lambda lst: chain_fails(scratch, gpath, [x.line for x in lst], "unstable", "stable"))
+                ctx = [x.line for x in ctx]
+            res.fail("C02/s2u2s:roundtrip", f"[{L.name}] gaftools' own stable record {s1!r} -> {u2!r} -> {s3!r}" + (f" (only after {len(ctx) - 1} earlier record(s) in the same file)" if len(ctx) > 1 else ""), fail_case(L, "s2u2s", ctx))
     if recs:
         k = (2 * len(recs)) // 3
         res.sample({"layout": L.name, "u": recs[k].line(), "s": S1[k], "u_again": U2[k]})
@@ -155,7 +186,7 @@ def replay(case, scratch):
     L = conv.layout_from(case["layout"])
     g = L.graph("complete")
     gpath = os.path.join(scratch, "g.gfa")
-    fw.write_text(gpath, g.text())
+    fw.write_text(gpath, conv.gfa_text(g, L))
     chain = case.get("chain")
     lines = case["records"]
     text = "".join(l + "\n" for l in lines)
